@@ -44,7 +44,7 @@ MANIFEST = {
             "AST translator + bit-exact comparison (float.hex) of the PrimFloat instance with the real functions on all n <= 12 (16 "
             "thorough), a family of cycle lengths/margins, every slot boundary and its two float neighbours, a dense grid, several "
             "cycles and epoch offsets up to 2^31 s; every configuration again with active-runner lists that carry execution history "
-            "(2-4 lists per configuration, all 12 classes for margin >= slot in the thorough tier: one/all runners, durations "
+            "(2-4 lists per configuration, 3-6 in the thorough tier, drawn from 12 classes: one/all runners, durations "
             "below/above half a slot, a slot, the cycle, zero, negative, start only, random) - windows and authorisations bit-equal "
             "to the id-only model; the same through should_run_atomic_service on both orchestrators under a virtual clock, "
             "without and with executions recorded by record_atomic_service_execution (re-recorded mid-run); an oracle on the "
@@ -390,7 +390,7 @@ def pure_with_history(ctx: Ctx, wide, n, im, mm, cls, slots, ts, m_slots, m_auth
     from pynenc.orchestrator.atomic_service import can_run_atomic_service
     S = im * 60 / n
     fallback = mm * 60 >= S
-    k = None if (wide and fallback) else (4 if (wide or fallback) else 2)
+    k = (6 if fallback else 3) if wide else (4 if fallback else 2)      # lists per configuration (classes drawn from the pool)
     done = 0
     for hcls, hist in histories(ctx.rng, n, im, mm, k):
         runners = mk_runners(n, hist)
@@ -621,8 +621,8 @@ def main(ctx: Ctx) -> int:
         rule="configurations = all n in 1..12 (16 thorough) x cycle-length family x margin classes (0, default, tiny, half/quarter slot, "
              "exactly slot, one ulp below/above slot, twice slot, whole cycle) + seeded random ones; instants = every slot boundary, 0 "
              "and the cycle length with both float neighbours in cycles {0,1,3,(7,1000)} and at epoch offsets ~1.7e9 s and ~2^31 s, "
-             "plus a seeded dense grid; each configuration again with 2 (margin fits) / 4 (margin >= slot) / all 12 (thorough, margin >= "
-             "slot) execution histories on the active list (same instants + the boundaries of any window that moved); orchestrators: "
+             "plus a seeded dense grid; each configuration again with 2 (margin fits) / 4 (margin >= slot) (thorough: 3 / 6) "
+             "execution histories on the active list (same instants + the boundaries of any window that moved); orchestrators: "
              "8 (26 thorough) configurations x {mem, sqlite} x {no history, 1-4 recorded histories}; one evaluation = all runners of one configuration asked at one instant (model and "
              "implementation compared bit-exactly, oracle on the implementation's answers); distinct_nontrivial = distinct "
              "(configuration, instant) pairs")
